@@ -36,11 +36,11 @@ for name in sorted(set(conf) | {n for n in matrix if re.match(r'(R\d+)?C\d\d[AB]
     readme = open(f'{dst}/README.md').read() if os.path.exists(f'{dst}/README.md') else ''
     mx = matrix.get(name, {}).get('results', {})
     meta = dict(id=name, breaks_property=pid, property_title=props[pid]['title'],
-                origin='written by an independent sub-agent that saw only the property text and a scratch worktree of /repo' + (f' (round {rnd[1:]}: told which mechanisms earlier rounds had used, to avoid them)' if r2 else ''),
+                origin='written by an independent sub-agent that saw only the property text and a scratch worktree of /repo' + ((f' (round {rnd[1:]}: asked for boundaries, fast paths for some byte patterns, state-dependent shortcuts, cooperating sites)' if rnd == 'R10' else f' (round {rnd[1:]}: told which mechanisms earlier rounds had used, to avoid them)') if r2 else ''),
                 needs_to_manifest=needs(readme), description_file='README.md',
                 confirmed=dict(how='tools/confirm_mutant.sh in a scratch worktree of /repo: cargo test --workspace --offline with the change applied; the demonstration as purl/tests/demo.rs with the change; the demonstration without it',
                                result=conf.get(name, 'not re-confirmed')),
-                checks=dict(ran='tools/matrix.py: every registered quick check on a scratch worktree with the change applied (VERIF_REPO)',
+                checks=dict(ran=('tools/matrix.py with MATRIX_TARGET=1: the quick check of the target property on a scratch worktree with the change applied (VERIF_REPO)' if rnd in ('R9', 'R10') else 'tools/matrix.py: every registered quick check on a scratch worktree with the change applied (VERIF_REPO)'),
                             alarms={p: r['kind'] for p, r in sorted(mx.items()) if r['kind'] != 'pass'},
                             target_detected=mx.get(pid, {}).get('kind'), target_replay=(mx.get(pid, {}).get('replay') or {}).get('printable')) if mx else None)
     json.dump(meta, open(f'{dst}/meta.json', 'w'), indent=1, ensure_ascii=False)
